@@ -57,7 +57,7 @@ var c02BodyMuts = []string{"tx-drop", "tx-dup", "tx-swap", "tx-byte", "tx-other"
 	"wd-drop", "wd-dup", "wd-byte", "wd-strip", "wd-strip", "wd-add-empty", "wd-add-empty", "wd-other", "wd-empty-list"}
 var c02RcMuts = []string{"rc-drop", "rc-dup", "rc-swap", "rc-byte", "rc-empty", "rc-other-one"}
 var c02HdrMuts = []string{"hdr-field", "hdr-proof-byte", "hdr-proof-other", "hdr-header-other", "hdr-number"}
-var c02ByteMuts = []string{"bit", "bit", "trunc", "extend", "offset"}
+var c02ByteMuts = []string{"bit", "bit", "trunc", "extend", "offset", "extend-zeros"}
 var c02KeyMuts = []string{"key-selector", "key-byte", "key-trunc", "key-extend", "key-number", "key-insert", "key-cut-front"}
 
 func genBlockRef(t *rapid.T, label string) blockRef {
@@ -407,6 +407,13 @@ func c02Mutate(cs *c02Case, m c02Mut, contKind int, other *histBlock, c *stats.C
 		cs.content = cs.content[:len(cs.content)-n]
 	case "extend":
 		cs.content = append(append([]byte{}, cs.content...), prfBytes(m.V, "ext", 1+m.A%40)...)
+	case "extend-zeros":
+		// zero bytes appended (1..8, mostly exactly one SSZ offset worth of them): what a lenient list decoder reads as "no elements"
+		n := 4
+		if m.B%3 == 0 {
+			n = 1 + m.A%8
+		}
+		cs.content = append(append([]byte{}, cs.content...), make([]byte, n)...)
 	case "offset":
 		// one of the leading SSZ offsets +-1/+-4/zero
 		if len(cs.content) >= 12 {
